@@ -449,3 +449,143 @@ Proof.
   assert (Hb : amem Z.eqb (backlogs s) (rpeer r) = true) by (destruct H as (_ & X2 & _); eapply X2; eauto).
   destruct (c <? MAX_RETRANSMIT); [reflexivity|]. cbn [backlogs cancel_r set_rtimers set_exch]. rewrite Hb. apply le_tm_dispatch_error.
 Qed.
+
+Lemma le_dispatch_message s r m : XI s -> BInv s -> NoLE (snd (dispatch_message s r m)).
+Proof.
+  unfold dispatch_message. intros HX HB.
+  set (p0 := if is_request (code m) then _deduplicate_message s r m else (s, [], false)).
+  assert (H0 : XI (fst (fst p0)) /\ NoLE (snd (fst p0))).
+  { subst p0. destruct (is_request (code m)); [split; [apply XI_dedup; assumption|apply le_dedup]|split; [exact HX|reflexivity]]. }
+  destruct p0 as [[s0 o0] dup]. cbn [fst snd] in H0. destruct H0 as [H0 L0]. destruct dup; [exact L0|].
+  set (p1 := match mtype m with ACK | RST => _remove_exchange s0 r m | _ => (s0, []) end).
+  assert (L1 : NoLE (snd p1)) by (subst p1; destruct (mtype m); try reflexivity; apply le_remove_exchange; exact H0).
+  destruct p1 as [s1 o1]. cbn [snd] in L1.
+  match goal with |- context [let '(a, b) := ?X in _] => assert (Hx : NoLE (snd X)); [|destruct X as [s2 o2]; cbn [snd] in *; repeat apply NoLE_app; assumption] end.
+  assert (Hsi : forall sx rx w, NoLE (snd (_send_initially sx rx w MonResp))) by (intros; rewrite (proj1 (send_initially_out _ _ _ _)); reflexivity).
+  destruct (code m =? EMPTY). { destruct (mtype m); try reflexivity; apply Hsi. }
+  destruct (is_request (code m)). { destruct (mtype m); try reflexivity; apply le_process_request. }
+  destruct (is_response (code m)); [|reflexivity].
+  assert (Hgo : forall t, NoLE (snd (let '(s', o, success) := tm_process_response s1 r m in
+      if success then match t with CON => let '(s'', o') := _send_empty_ack s' r (mid m) in (s'', o ++ o') | _ => (s', o) end
+      else if mtype_eqb t CON && negb (is_multicast_locally r)
+           then let '(s'', o') := _send_initially s' (as_response_address r) (empty_msg RST (mid m)) MonResp in (s'', o ++ o')
+           else (s', o)))).
+  { intros t. pose proof (le_tm_process_response s1 r m) as Hx. destruct (tm_process_response s1 r m) as [[sx ox] success]. cbn [fst snd] in Hx.
+    destruct success.
+    - destruct t; try exact Hx. unfold _send_empty_ack.
+      pose proof (Hsi sx (as_response_address r) (empty_msg ACK (mid m))) as Hf.
+      destruct (_send_initially sx (as_response_address r) (empty_msg ACK (mid m)) MonResp). apply NoLE_app; assumption.
+    - destruct (mtype_eqb t CON && negb (is_multicast_locally r)); [|exact Hx].
+      pose proof (Hsi sx (as_response_address r) (empty_msg RST (mid m))) as Hf.
+      destruct (_send_initially sx (as_response_address r) (empty_msg RST (mid m)) MonResp). apply NoLE_app; assumption. }
+  destruct (mtype m); [apply (Hgo CON)|apply (Hgo NON)|apply (Hgo ACK)|reflexivity].
+Qed.
+
+Lemma le_step s e : XI s -> BInv s -> AInv s -> NoLE (snd (step s e)).
+Proof.
+  intros HX HB HA. destruct e as [r m|k c rnr pl|pe mt ob| |dd]; cbn [step].
+  - apply le_dispatch_message; assumption.
+  - apply le_handler_respond.
+  - apply le_tm_request.
+  - destruct (next_timer s) as [[[|] t]|] eqn:En; [| |reflexivity].
+    + pose proof (next_timer_a_in _ _ En) as Hin. destruct HA as (A1 & _). destruct (A1 t Hin) as (_ & _ & r & tok & pm & Hk & Hg).
+      rewrite Hk. unfold on_timeout. cbn [piggy set_now cancel_a set_atimers]. rewrite Hg. unfold _send_empty_ack.
+      rewrite (proj1 (send_initially_out _ _ _ _)). reflexivity.
+    + pose proof (next_timer_r_in _ _ En) as Hin. unfold run_timer. destruct (kind t) as [rr tk|rr mm to cc|pp md] eqn:Ek; try reflexivity.
+      destruct HX as (X1 & HX'). destruct (X1 _ _ _ _ _ Hin Ek) as [mon Hm].
+      eapply le_retransmit; [|cbn; exact Hm]. apply XI_cancel_r. split; assumption.
+  - reflexivity.
+Qed.
+
+Lemma le_run es : forall s s' os, run s es = (s', os) -> XI s -> BInv s -> AInv s -> NoLE (outputs_of os).
+Proof.
+  induction es as [|e es IH]; intros s s' os H HX HB HA; cbn [run] in H; [inv H; reflexivity|].
+  pose proof (le_step s e HX HB HA) as L1.
+  destruct (step s e) as [s1 o] eqn:E1. destruct (run s1 es) as [s2 os2] eqn:E2. inv H.
+  unfold outputs_of. cbn [map concat snd]. apply NoLE_app; [exact L1|].
+  eapply IH; [exact E2|eapply XI_step; eauto| |eapply AInv_step; eauto]. apply step_ok in E1; [tauto|exact HB].
+Qed.
+
+(* ------------------------------------------------------------------ exported statements *)
+(* the invariant holds in every state reachable from the initial state *)
+Theorem exchange_invariant es m0 t0 s os : run (init m0 t0) es = (s, os) -> XI s.
+Proof. intros H. eapply XI_run; [exact H|apply XI_init|apply BInv_init]. Qed.
+
+(* _retransmit never raises KeyError: whenever a retransmission handle is the next to fire, its exchange is still registered under the
+   message's (peer, mid) with exactly this handle, and the peer's backlog key exists (needed at give-up) *)
+Theorem retransmit_keyerror_unreachable es m0 t0 s os t r m to c : run (init m0 t0) es = (s, os) ->
+  next_timer s = Some (false, t) -> kind t = Retransmit r m to c ->
+  (exists mon, aget zz_eqb (exch s) (rpeer r, mid m) = Some (mon, tid t)) /\ amem Z.eqb (backlogs s) (rpeer r) = true /\
+  forall e, ~ In (LoopException e) (snd (step s Fire)).
+Proof.
+  intros Hrun En Hk. pose proof (exchange_invariant _ _ _ _ _ Hrun) as HX.
+  pose proof (next_timer_r_in _ _ En) as Hin. pose proof HX as (X1 & X2 & _). destruct (X1 _ _ _ _ _ Hin Hk) as [mon Hm].
+  split; [eauto|]. split; [eapply X2; eauto|]. apply NoLE_in. apply le_step; [exact HX| |].
+  - eapply run_ok; [exact Hrun|apply BInv_init].
+  - eapply AInv_run; [exact Hrun|apply AInv_init].
+Qed.
+
+(* _continue_backlog never raises AssertionError: every active exchange's peer has a backlog key, in every reachable state, and an
+   ACK / RST that removes an exchange continues that backlog without an internal error *)
+Theorem continue_backlog_assertion_unreachable es m0 t0 s os : run (init m0 t0) es = (s, os) ->
+  (forall p M v, aget zz_eqb (exch s) (p, M) = Some v -> aget Z.eqb (backlogs s) p <> None) /\
+  (forall r m e, ~ In (LoopException e) (snd (_remove_exchange s r m))) /\
+  (forall r m e, ~ In (LoopException e) (snd (step s (Recv r m)))).
+Proof.
+  intros Hrun. pose proof (exchange_invariant _ _ _ _ _ Hrun) as HX. split; [|split].
+  - intros p M v Hv. destruct HX as (_ & X2 & _). specialize (X2 _ _ _ Hv). unfold amem in X2. destruct (aget Z.eqb (backlogs s) p); congruence.
+  - intros r m. apply NoLE_in. apply le_remove_exchange. exact HX.
+  - intros r m. apply NoLE_in. apply le_step; [exact HX| |].
+    + eapply run_ok; [exact Hrun|apply BInv_init].
+    + eapply AInv_run; [exact Hrun|apply AInv_init].
+Qed.
+
+(* all three internal-error outputs of the model (on_timeout KeyError — round 6 —, _retransmit KeyError, _continue_backlog
+   AssertionError) and hence every LoopException output: never produced, from the initial state, for every event history *)
+Theorem no_loop_exception es m0 t0 s os : run (init m0 t0) es = (s, os) -> forall e, ~ In (LoopException e) (outputs_of os).
+Proof. intros Hrun. apply NoLE_in. eapply le_run; [exact Hrun|apply XI_init|apply BInv_init|apply AInv_init]. Qed.
+
+(* NSTART = 1: at most one exchange per peer in every reachable state *)
+Theorem one_exchange_per_peer es m0 t0 s os p M M' : run (init m0 t0) es = (s, os) ->
+  aget zz_eqb (exch s) (p, M) <> None -> aget zz_eqb (exch s) (p, M') <> None -> M = M'.
+Proof. intros Hrun. pose proof (exchange_invariant _ _ _ _ _ Hrun) as (_ & _ & X3 & _). apply X3. Qed.
+
+(* ------------------------------------------------------------------ non-vacuity (vm_compute) *)
+Definition p1 : remote := {| rpeer := 1; rlocal := 0 |}.
+Definition h_two : list event := [Request 1 (Some CON) false; Request 1 (Some CON) false].
+Definition h_ack : list event := h_two ++ [Recv p1 (empty_msg ACK 10)].
+Definition h_giveup : list event := h_two ++ [Fire; Fire; Fire; Fire; Fire].
+Definition is_fail (o : output) : bool := match o with Fail _ _ => true | _ => false end.
+Definition is_send_mid (M : Z) (o : output) : bool := match o with Send _ w => mid w =? M | _ => false end.
+
+(* exchange_invariant / one_exchange_per_peer: after two CON requests to one peer there is one exchange (mid 10), the second message
+   waits in the peer's backlog, one retransmission handle is pending *)
+Example exchange_invariant_nonvacuous :
+  let s := fst (run (init 10 20) h_two) in
+  (map fst (exch s), map (fun kv => (fst kv, length (snd kv))) (backlogs s), length (rtimers s)) = ([(1, 10)], [(1, 1%nat)], 1%nat).
+Proof. vm_compute. reflexivity. Qed.
+(* retransmit_keyerror_unreachable: the next handle to fire is that retransmission handle and the exchange holds exactly it *)
+Example retransmit_keyerror_unreachable_nonvacuous :
+  let s := fst (run (init 10 20) h_two) in
+  match next_timer s with
+  | Some (false, t) => match kind t with
+                       | Retransmit r m _ _ => match aget zz_eqb (exch s) (rpeer r, mid m) with Some (_, h) => h =? tid t | None => false end
+                       | _ => false end
+  | _ => false
+  end = true.
+Proof. vm_compute. reflexivity. Qed.
+(* ... and the give-up branch of _retransmit is reached (fifth firing): both requests fail, no exchange / backlog / handle is left *)
+Example retransmit_giveup_nonvacuous :
+  let '(s, os) := run (init 10 20) h_giveup in
+  (length (filter is_fail (outputs_of os)), length (filter (is_send_mid 10) (outputs_of os)), exch s, backlogs s, rtimers s, existsb isle (outputs_of os))
+  = (2%nat, 5%nat, [], [], [], false).
+Proof. vm_compute. reflexivity. Qed.
+(* continue_backlog_assertion_unreachable: the ACK for mid 10 removes the exchange and _continue_backlog sends the waiting mid 11 *)
+Example continue_backlog_assertion_unreachable_nonvacuous :
+  let '(s, os) := run (init 10 20) h_ack in
+  (map fst (exch s), length (filter (is_send_mid 11) (outputs_of os)), existsb isle (outputs_of os)) = ([(1, 11)], 1%nat, false).
+Proof. vm_compute. reflexivity. Qed.
+(* no_loop_exception: the statement is about non-empty output lists *)
+Example no_loop_exception_nonvacuous :
+  (length (outputs_of (snd (run (init 10 20) (h_ack ++ [Fire; Fire; Fire; Fire; Fire])))) ?= 3)%nat = Gt.
+Proof. vm_compute. reflexivity. Qed.
